@@ -217,16 +217,27 @@ CHECKS = {
                 'prescribes for every program and choice path - that needs an independent interpreter and execution.',
         'technique': 'static analysis: field coverage + guard-atom dataflow + CFG must-pass-through over MIR',
     },
+    'C06': {
+        'text': 'Three structural clauses about the compiler, all recovered from the current tree: (a) vocabulary agreement - '
+                'every bare token (47) and object key (27) the emitter can put into a story is one the runtime decoder '
+                'accepts (control-command / native-function names recovered from the runtime\'s own tables); (b) the '
+                'emitter\'s built-in function table and validator::is_builtin_function list the same 21 names and every '
+                'token is a runtime name; (c) the CONST resolution pass has an arm for every Node / Expression variant and '
+                'touches every Choice field that carries expressions (type-level walker coverage), and the validator\'s '
+                'lookup checkers return Err when every declared-name lookup fails. Two genuine gaps of (c) are recorded as '
+                'known findings (unknown functions and unknown variables are accepted).',
+        'design_ref': 'DESIGN.md §4 C06',
+        'note': TRUST + ' Not decided: termination and panic-freedom of the parser (run-time computed byte offsets), line '
+                'numbers of errors, that resolved paths in emitted JSON denote existing content, names inside choice text '
+                '(kept as raw strings in the AST).',
+        'technique': 'static analysis: vocabulary/table recovery from MIR, type-level walker coverage, guard-atom reject-unknown rule',
+    },
 }
 
 NOT_APPLICABLE = {
     'C05': 'agreement with the reference compiler on the corpus is a relation between two outputs over 121 inputs and '
            'all choice paths; no clause of it is visible in the shape of the code, deciding it means running compiler and runtime',
 }
-for _p in ['C01', 'C02', 'C03', 'C04', 'C06', 'C07', 'C08', 'C09', 'C10', 'C11', 'C12', 'C13', 'C14', 'C15', 'C16',
-           'C17', 'C19', 'C20']:
-    if _p not in CHECKS:
-        NOT_APPLICABLE[_p] = 'rule set designed (DESIGN.md §4) but not built yet in this revision; not claimed until its check exists'
 
 NOTES = ('All checks are static: ./check <id> type-checks /repo\'s current working tree with a rustc_private driver '
          '(no code of /repo is executed) and evaluates the property\'s rule set over the dumped MIR/ADT facts. '
